@@ -35,6 +35,24 @@ def main(argv):
             return 2
         R, technique = fn(P, tier)
         R.analysed.setdefault("source_digest", P.digest())
+        if tier == "thorough" and prop in ("C01", "C02", "C03", "C04", "C05", "C06", "C07", "C10") and not os.environ.get("VERIF_EVIDENCE_DIR"):
+            # every rule again on the paths where the requested mode counts exceed the padded grid (x, resp. y only)
+            import rules_solver as RS
+
+            seen = {(o.rule, o.site, o.what) for o in R.obs}
+            for state in ((True, None), (False, True)):
+                RS.DEFAULT_CLAMP = state
+                try:
+                    R2, _ = fn(P, tier)
+                    for o in R2.obs:
+                        o.site = "%s [mode clamp %s]" % (o.site, state)
+                        R.add(o)
+                except AnalysisError as e:
+                    from report import req_ob
+
+                    R.add(req_ob("R-PATHS", "clamp outcome %s" % (state,), "rules can be evaluated on the clamped paths", None, detail=str(e)))
+                finally:
+                    RS.DEFAULT_CLAMP = (False, False)
         if tier == "thorough" and not os.environ.get("VERIF_EVIDENCE_DIR"):
             import selftest
             from report import req_ob
